@@ -991,7 +991,11 @@ def run_soc(case):
     for lane, lops in ((ma.wl, [o for o in ops if o["we"]]), (ma.rl, [o for o in ops if not o["we"]])):
         for L, o in zip(lane.log, lops):
             if o["k"] == "u" and (L["resp"][1] != c11lib.RESP_SLVERR or (not o["we"] and L["resp"][2] != ONES)):
-                return bad("error-indication", "%s: access to unmapped %#x answered %r" % (ctx, addr(o), L["resp"]), key="c11:soc-indication", cls=cls, cycles=cyc)
+                # reads and writes run concurrently here; AXILiteDecoder routes by its registered select while a request of the other
+                # direction is outstanding (finding recorded under C08): an unmapped access can then reach a slave and be answered
+                both = any(x["we"] for x in ops) and any(not x["we"] for x in ops)
+                return bad("error-indication", "%s: access to unmapped %#x answered %r" % (ctx, addr(o), L["resp"]),
+                           key="c11:soc-axil-decoder-concurrent" if both else "c11:soc-indication", cls=cls, cycles=cyc)
     final = pr.trace[-1][0]
     pulses = sum(v[1] for v in pr.trace[1:])
     if start:
